@@ -385,6 +385,18 @@ impl DcpsDomainParticipant {
             }
         }
 
+        // A content filtered topic (and through it its readers) uses its related topic
+        if self
+            .domain_participant
+            .content_filtered_topic_list
+            .iter()
+            .any(|x| x.related_topic_name == topic.topic_name)
+        {
+            return Err(DdsError::PreconditionNotMet(
+                "Topic still related to some content filtered topic".to_string(),
+            ));
+        }
+
         self.domain_participant
             .locally_created_topic_list
             .retain(|x| x.topic_name != topic_name);
@@ -451,6 +463,31 @@ impl DcpsDomainParticipant {
         participant_handle: &InstanceHandle,
         name: String,
     ) -> DdsResult<()> {
+        if &self.domain_participant.instance_handle != participant_handle {
+            return Err(DdsError::PreconditionNotMet(
+                "Topic can only be deleted from its parent participant".to_string(),
+            ));
+        }
+        if !self
+            .domain_participant
+            .content_filtered_topic_list
+            .iter()
+            .any(|x| x.topic_name == name)
+        {
+            return Err(DdsError::AlreadyDeleted);
+        }
+        for subscriber in self.domain_participant.user_defined_subscriber_list.iter() {
+            for reader in subscriber.data_reader_list.iter() {
+                if reader.topic_name == name {
+                    return Err(DdsError::PreconditionNotMet(
+                        "Content filtered topic still attached to some data reader".to_string(),
+                    ));
+                }
+            }
+        }
+        self.domain_participant
+            .content_filtered_topic_list
+            .retain(|x| x.topic_name != name);
         Ok(())
     }
 
@@ -572,6 +609,7 @@ impl DcpsDomainParticipant {
             }
         }
 
+        self.domain_participant.content_filtered_topic_list.clear();
         self.domain_participant
             .locally_created_topic_list
             .retain(|x| BUILT_IN_TOPIC_NAME_LIST.contains(&x.topic_name.as_str()));
